@@ -13,7 +13,7 @@ RULE = ("Hypothesis-generated training lists (structured passwords: words in sev
         "the encoding): the real trainer writes a ruleset, the real guesser loads it (skip_brute when a Markov structure exists) "
         "and the real queue is drained with every pre-terminal expanded. Oracle: every training password whose recorded "
         "segmentation has no e-mail/website segment is among the emitted guesses, byte for byte; sum of probability x number of "
-        "guesses over all pre-terminals is 1 within 1e-9. Non-trivial = the list has a password with an upper-case letter and "
+        "guesses over all pre-terminals is 1 within 1e-9; a large_lists part trains lists that put 1000-2100 distinct values into one rules file. Non-trivial = the list has a password with an upper-case letter and "
         ">=2 segment types, or a multi-word, or a non-ASCII letter; distinct = hash of (list, options).")
 ASSUMPTIONS = ["letter domain of the property: alphabetic characters whose upper/lower case mapping is one-to-one",
                "coverage 0 ('Markov only') is outside: 'without Markov guessing' is empty there by definition",
